@@ -939,4 +939,188 @@ theorem not_canStep_of_quiescent {cfg : Cfg} {s : State} {t : Thread} (hq : quie
   simp only [quiescent, List.all_eq_true] at hq
   simpa using hq t ht
 
+/-! ## termination of the maximal-progress phases (thread steps and timer expiries only) -/
+
+def armedBit (o : Option Time) : Nat := if o.isSome then 1 else 0
+
+theorem armedBit_le (o : Option Time) : armedBit o ≤ 1 := by unfold armedBit; split <;> omega
+
+def Thread.rank (t : Thread) : Nat :=
+  (match t.pc with
+    | .woken => 10 | .reset => 8 | .pre => 6 | .check => 4 | .sel => 2 | .idle => 0 | .done => 0) + armedBit t.armed
+
+def Thread.act (t : Thread) : Nat := if t.pc = .idle ∨ t.pc = .done then 0 else 1
+
+def Sh.toks (sh : Sh) : Nat := (if sh.rtok = true then 1 else 0) + (if sh.wtok = true then 1 else 0)
+
+/-- every step of a caller decreases `27·active + 9·tokens + rank`: a return decreases `active` (and
+issues at most one chain token), taking a token decreases `tokens` (and raises the rank by 8), every
+other step lowers the rank -/
+theorem tstep_measure {cfg : Cfg} {sh : Sh} {t : Thread} {ch : Choice} {r : TRes}
+    (hs : tstep cfg sh t ch = some r) :
+    27 * r.t.act + 9 * r.sh.toks + r.t.rank < 27 * t.act + 9 * sh.toks + t.rank := by
+  have h1 := armedBit_le t.armed
+  have h2 := armedBit_le (t.loadDeadline cfg sh.rd).armed
+  have h3 := armedBit_le (t.loadDeadline cfg sh.wd).armed
+  tstep_cases hs
+  all_goals simp_all [Thread.rank, Thread.act, Sh.toks, Thread.finish, Thread.stopDrain, armedBit]
+  all_goals (repeat' split)
+  all_goals omega
+
+def Thread.weight (t : Thread) : Nat := 27 * t.act + t.rank
+
+/-- the termination measure of a state -/
+def measure (s : State) : Nat := (s.ths.map Thread.weight).sum + 9 * s.sh.toks
+
+/-- thread steps and timer expiries: what happens between two environment events / ticks -/
+def Label.isProgress : Label → Bool
+  | .thr _ _ => true
+  | .fire _ => true
+  | _ => false
+
+theorem sum_map_set (f : Thread → Nat) {l : List Thread} {i : Nat} {a : Thread} (b : Thread)
+    (h : l[i]? = some a) : ((l.set i b).map f).sum + f a = (l.map f).sum + f b := by
+  induction l generalizing i with
+  | nil => simp at h
+  | cons x xs ih =>
+    cases i with
+    | zero => simp at h; subst h; simp; omega
+    | succ i =>
+      simp at h
+      have := ih h
+      simp only [List.set_cons_succ, List.map_cons, List.sum_cons]
+      omega
+
+theorem fire_weight {now : Time} {t t' : Thread} (h : t.fire now = some t') : t'.weight < t.weight := by
+  unfold Thread.fire at h
+  split at h
+  · rename_i w hw
+    split at h
+    · cases h
+      simp [Thread.weight, Thread.rank, Thread.act, armedBit, hw]
+    · contradiction
+  · contradiction
+
+theorem step_measure {cfg : Cfg} {s s' : State} {l : Label} (hl : l.isProgress = true)
+    (hs : step cfg s l = some s') : measure s' < measure s := by
+  cases l <;> simp [Label.isProgress] at hl <;> simp only [step] at hs
+  case thr i ch =>
+    split at hs
+    · rename_i t hi
+      split at hs
+      · rename_i r hr
+        cases hs
+        have h1 := sum_map_set Thread.weight r.t hi
+        have h2 := tstep_measure hr
+        simp only [measure, Thread.weight] at *
+        omega
+      · contradiction
+    · contradiction
+  case fire i =>
+    split at hs
+    · rename_i t hi
+      split at hs
+      · rename_i t1 hf
+        cases hs
+        have h1 := sum_map_set Thread.weight t1 hi
+        have h2 := fire_weight hf
+        simp only [measure] at *
+        omega
+      · contradiction
+    · contradiction
+
+/-- a maximal-progress phase from `s` has at most `measure s` steps -/
+theorem run_measure {cfg : Cfg} {s s' : State} (ls : List Label) (hall : ∀ l ∈ ls, l.isProgress = true)
+    (hr : run cfg s ls = some s') : ls.length + measure s' ≤ measure s := by
+  induction ls generalizing s with
+  | nil => simp [run] at hr; subst hr; simp
+  | cons l ls ih =>
+    simp only [run] at hr
+    split at hr
+    · rename_i s1 h1
+      have hm := step_measure (hall l (by simp)) h1
+      have := ih (fun l' hl' => hall l' (by simp [hl'])) hr
+      simp only [List.length_cons]; omega
+    · contradiction
+
+/-- control points that exist for the kind of caller (`pre` is Write's poll; Accept has a single `select`) -/
+def PcOK (t : Thread) : Prop :=
+  (t.kind = .read → t.pc ≠ .pre) ∧ (t.kind = .accept → t.pc ≠ .pre ∧ t.pc ≠ .check ∧ t.pc ≠ .woken)
+
+theorem tstep_pcOK {cfg : Cfg} {sh : Sh} {t : Thread} {ch : Choice} {r : TRes}
+    (h : PcOK t) (hs : tstep cfg sh t ch = some r) : PcOK r.t := by
+  unfold PcOK at *
+  tstep_cases hs
+  all_goals simp_all [Thread.finish, Thread.stopDrain]
+  all_goals (repeat' split)
+  all_goals simp_all
+
+theorem reach_pcOK {cfg : Cfg} {kinds : List Kind} {wnd infl : Nat} {s : State}
+    (h : Reach cfg (init kinds wnd infl) s) : ∀ t ∈ s.ths, PcOK t := by
+  refine Reach.induct (P := fun s => ∀ t ∈ s.ths, PcOK t) ?_ ?_ h
+  · intro t ht
+    simp only [init, List.mem_map] at ht
+    obtain ⟨k, _, rfl⟩ := ht
+    simp [PcOK]
+  · intro s l s' _ ih hs
+    exact step_forall_ths (fun _ t => PcOK t) (fun _ h => h) (fun h hs => tstep_pcOK h hs)
+      (fun h hf => by
+        have := fire_same hf
+        unfold PcOK at *; rw [this.1, this.2.1]; exact h)
+      (fun _ k b n => by simp [PcOK, Thread.fresh]) (fun h => by unfold PcOK at *; simp_all) ih hs
+
+/-- every control point other than the `select` has an enabled continuation -/
+theorem canStep_active {cfg : Cfg} {sh : Sh} {t : Thread} (hok : PcOK t)
+    (hp : t.pc = .reset ∨ t.pc = .pre ∨ t.pc = .check ∨ t.pc = .woken) : t.canStep cfg sh = true := by
+  unfold PcOK at hok
+  cases hk : t.kind
+  case read =>
+    rcases hp with hp | hp | hp | hp
+    · apply canStep_of_choice .go; simp [tstep, tstepRead, hk, hp]
+    · exact absurd hp (hok.1 hk)
+    · apply canStep_of_choice .go; simp only [tstep, tstepRead, hk, hp]; split <;> rfl
+    · apply canStep_of_choice .go; simp only [tstep, tstepRead, hk, hp]; split <;> rfl
+  case write =>
+    rcases hp with hp | hp | hp | hp
+    · apply canStep_of_choice .go; simp [tstep, tstepWrite, hk, hp]
+    · by_cases hw : sh.werr = true
+      · apply canStep_of_choice .err; simp [tstep, tstepWrite, hk, hp, hw]
+      · by_cases hd : sh.die = true
+        · apply canStep_of_choice .die; simp [tstep, tstepWrite, hk, hp, hd]
+        · apply canStep_of_choice .go; simp [tstep, tstepWrite, hk, hp, hw, hd]
+    · apply canStep_of_choice .go; simp only [tstep, tstepWrite, hk, hp]; split <;> rfl
+    · apply canStep_of_choice .go; simp only [tstep, tstepWrite, hk, hp]; split <;> rfl
+  case accept =>
+    have := hok.2 hk
+    rcases hp with hp | hp | hp | hp
+    · apply canStep_of_choice .go; simp only [tstep, tstepAccept, hk, hp]; split <;> rfl
+    · exact absurd hp this.1
+    · exact absurd hp this.2.1
+    · exact absurd hp this.2.2
+
+/-- in a quiescent state every caller is idle, has returned, or is blocked in its `select` -/
+theorem quiescent_pcs {cfg : Cfg} {s : State} (hq : quiescent cfg s = true) {t : Thread} (ht : t ∈ s.ths)
+    (hok : PcOK t) : t.pc = .idle ∨ t.pc = .done ∨ t.pc = .sel := by
+  have hns := not_canStep_of_quiescent hq ht
+  cases hp : t.pc
+  case idle => exact Or.inl rfl
+  case done => exact Or.inr (Or.inl rfl)
+  case sel => exact Or.inr (Or.inr rfl)
+  case reset => have := canStep_active (cfg := cfg) (sh := s.sh) hok (Or.inl hp); simp [hns] at this
+  case pre => have := canStep_active (cfg := cfg) (sh := s.sh) hok (Or.inr (Or.inl hp)); simp [hns] at this
+  case check => have := canStep_active (cfg := cfg) (sh := s.sh) hok (Or.inr (Or.inr (Or.inl hp))); simp [hns] at this
+  case woken => have := canStep_active (cfg := cfg) (sh := s.sh) hok (Or.inr (Or.inr (Or.inr hp))); simp [hns] at this
+
+/-- time is never stuck: in a quiescent state a tick to any later instant not beyond the next timer expiry is enabled -/
+theorem tick_enabled {cfg : Cfg} {s : State} {t' : Time} (hq : quiescent cfg s = true) (hlt : s.sh.now < t')
+    (harm : ∀ t ∈ s.ths, ∀ w, t.armed = some w → t' ≤ w) :
+    step cfg s (.tick t') = some { s with sh := { s.sh with now := t' } } := by
+  have : s.ths.all (Thread.armedGe t') = true := by
+    simp only [List.all_eq_true]
+    intro t ht
+    cases ha : t.armed with
+    | none => simp [Thread.armedGe, ha]
+    | some w => simp [Thread.armedGe, ha, harm t ht w ha]
+  simp [step, hq, hlt, this]
+
 end KcpVerif.Wait
